@@ -20,6 +20,15 @@ mod transport;
 pub mod util;
 mod xpub;
 
+#[cfg(feature = "verif-hooks")]
+mod verif_hooks;
+#[cfg(feature = "verif-hooks")]
+#[doc(hidden)]
+pub mod __verif {
+    //! DO NOT USE! PRIVATE IMPLEMENTATION, EXPOSED ONLY FOR VERIFICATION HARNESSES.
+    pub use super::verif_hooks::*;
+}
+
 #[doc(hidden)]
 pub mod __async_rt {
     //! DO NOT USE! PRIVATE IMPLEMENTATION, EXPOSED ONLY FOR INTEGRATION TESTS.
